@@ -313,7 +313,10 @@ std::vector<int> build(Run& R, int id, int param, bool with_control)
 			int t0 = R.add(K_TIMER, 0, "T0"), t1 = R.add(K_TIMER, 0, "T1"), t2 = R.add(K_TIMER, 1, "T2");
 			R.timer_wait(t0, 10); R.timer_wait(t1, 5, [r, t1, alive](boost::system::error_code const& e, std::size_t) { if (!e && alive(t1)) r->timer_wait(t1, 3); });
 			R.timer_wait(t2, 15);
-			targets = {t0, t1};
+			// three timers due at exactly the same instant, armed in this order
+			int e0 = R.add(K_TIMER, 0, "E0"), e1 = R.add(K_TIMER, 1, "E1"), e2 = R.add(K_TIMER, 0, "E2");
+			R.timer_wait(e0, 12); R.timer_wait(e1, 12); R.timer_wait(e2, 12);
+			targets = {t0, t1, e1, e2};
 			break;
 		}
 		case 1: case 4: case 5: case 6: case 8: case 15: case 16: case 18:
@@ -539,6 +542,7 @@ struct Outcome
 	std::vector<int> resend_pending_at; // per boundary (baseline): segments whose drop has been reported and that have not been transmitted again yet
 	bool second_applied = false, move_with_resend_pending = false;
 	long long main_end = 0, bytes_read = 0; std::size_t nevents = 0; // at quiescence of the main run
+	std::map<std::pair<int, int>, std::pair<int, long long>> timer_results; // (timer object, ordinal of its wait) -> (error code, completion time) in the main run
 };
 
 struct Second { int d = -1, kind = 0, obj = 0; };
@@ -589,6 +593,11 @@ Outcome run_scn(int id, int param, int k, int kind, int objsel, bool c12, Outcom
 		catch (std::exception const& e) { threw_other = true; R.fail(std::string("an unexpected exception came out of run(): ") + e.what()); }
 		if (R.threw && !threw) R.fail("an exception thrown by a user handler did not propagate out of run()");
 		long long const main_end = now_ns();
+		{
+			std::map<int, int> ord;
+			for (auto const& sp : R.sents)
+				if (sp->obj >= 0 && R.objs[std::size_t(sp->obj)].kind == K_TIMER) { int const k2 = ord[sp->obj]++; if (sp->count == 1) out.timer_results[{sp->obj, k2}] = {sp->ec, sp->t_run}; }
+		}
 		out.main_end = main_end; out.nevents = w.events.size(); out.bytes_read = R.sync_bytes;
 		for (auto const& sp : R.sents) if (sp->count == 1 && sp->ec == 0 && (sp->op == OP_READ || sp->op == OP_URECV || sp->op == OP_URECVFROM)) out.bytes_read += (long long)sp->n;
 		if (R.throw_next) { R.throw_next = false; R.iv_skipped = true; } // no user handler ran after the boundary: nothing to throw from
@@ -661,6 +670,19 @@ Outcome run_scn(int id, int param, int k, int kind, int objsel, bool c12, Outcom
 			if (std::size_t(k) < base->inflight_at.size() && base->inflight_at[std::size_t(k)] > 0 && (x.kind == K_TCP || x.kind == K_UDP || x.kind == K_ACC)) out.nontrivial = true;
 		}
 		if (R.iv_kind == 5 && R.threw) out.nontrivial = true;
+		// ---- timers are independent objects: in the timer-only scenarios the waits of every timer that was not touched
+		// complete exactly as they do without the intervention (same result, same instant)
+		if ((id == 0 || id == 22) && !threw && !out.inconclusive && R.iv_done && !R.iv_skipped && R.iv_kind != 5 && base && R.err.empty())
+			for (auto const& kv : base->timer_results)
+			{
+				int const o = kv.first.first;
+				if (o == R.iv_obj || (R.iv2_applied && o == R.iv2_obj)) continue;
+				auto it2 = out.timer_results.find(kv.first);
+				if (it2 == out.timer_results.end())
+				{ R.fail(fmt("wait #%d of timer '%s' (not touched) completed with %d at t=%lld without the intervention but did not complete before quiescence with it", kv.first.second, R.objs[std::size_t(o)].name.c_str(), kv.second.first, kv.second.second)); break; }
+				if (it2->second != kv.second)
+				{ R.fail(fmt("wait #%d of timer '%s' (not touched) completed with %d at t=%lld, without the intervention with %d at t=%lld", kv.first.second, R.objs[std::size_t(o)].name.c_str(), it2->second.first, it2->second.second, kv.second.first, kv.second.second)); break; }
+			}
 		// ---- a move is transparent: the object's connection, its queued and parked segments and everything else carry on
 		// exactly as in the run without it (same packets, same bytes read, same final time)
 		if (R.iv_done && !R.iv_skipped && R.iv_kind == 4 && base && std::size_t(k) < base->resend_pending_at.size() && base->resend_pending_at[std::size_t(k)] > 0) out.move_with_resend_pending = true;
